@@ -238,15 +238,47 @@ class IndexSetsH(_Arr):
 
     def run(self, c, st):
         self.begin_call(c)
-        return {"b": st["arr"].boolean_variable_indices.tolist(), "i": st["arr"].integer_variable_indices.tolist()}
+        arr, D = st["arr"], c.repo.puan.Dtype
+        # every documented spelling of the argument: the enum members and the strings "bool" / "int"
+        return {"b": arr.boolean_variable_indices.tolist(), "i": arr.integer_variable_indices.tolist(),
+                "b.enum": arr.variable_indices(D.BOOL).tolist(), "i.enum": arr.variable_indices(D.INT).tolist(),
+                "b.str": arr.variable_indices("bool").tolist(), "i.str": arr.variable_indices("int").tolist()}
 
     def ensures(self, c, st, res):
         out = []
         for j in range(c.state_case["k"]):
             isb = band(st["lo"][j] == 0, st["hi"][j] == 1)
             out.append((f"partition[{j}]", band((j in res["b"]) == isb, (j in res["i"]) == bnot(isb))))
-        out.append(("sorted", res["b"] == sorted(res["b"]) and res["i"] == sorted(res["i"])))
+            for sp in ("enum", "str"):
+                out.append((f"partition.{sp}[{j}]", band((j in res["b." + sp]) == isb, (j in res["i." + sp]) == bnot(isb))))
+        out.append(("sorted", all(res[k_] == sorted(res[k_]) for k_ in res)))
         return out
+
+    def concretise(self, case, k, model, c, st):
+        from .common import _mv
+        return {"case": dict(case), "bounds": [[_mv(model, lo.t), _mv(model, hi.t)] for lo, hi in zip(st["lo"], st["hi"])]}
+
+    def replay(self, w):
+        import puan
+        import puan.ndarray as pnd
+        k = w["case"]["k"]
+        vs = [puan.variable(f"v{j}", (lo, max(lo, hi))) for j, (lo, hi) in enumerate(w["bounds"])]
+        arr = pnd.variable_ndarray([[0] * k], variables=vs, index=[puan.variable("r")])
+        want_b = [j for j, v in enumerate(vs) if tuple(v.bounds.as_tuple()) == (0, 1)]
+        want_i = [j for j in range(k) if j not in want_b]
+        got = {"": (arr.boolean_variable_indices, arr.integer_variable_indices),
+               ".enum": (arr.variable_indices(puan.Dtype.BOOL), arr.variable_indices(puan.Dtype.INT)),
+               ".str": (arr.variable_indices("bool"), arr.variable_indices("int"))}
+        violated, detail = [], {"bounds": w["bounds"]}
+        for sp, (b, i) in got.items():
+            b, i = [int(x) for x in b], [int(x) for x in i]
+            for j in range(k):
+                if ((j in b) != (j in want_b)) or ((j in i) != (j in want_i)):
+                    violated.append(f"partition{sp}[{j}]")
+                    detail["got" + sp] = [b, i]
+            if b != sorted(b) or i != sorted(i):
+                violated.append("sorted")
+        return {"violated": sorted(set(violated)), "detail": detail}
 
 
 class ToListH(_Arr):
